@@ -186,7 +186,7 @@ func Encode(argb []uint32, width, height int, config *EncoderConfig) ([]byte, er
 	enc.applyTransforms()
 
 	// Encode the image.
-	bs, err := enc.encodeStream()
+	bs, err := enc.encodeStream(argbHasAlpha(argb))
 	if err != nil {
 		return nil, err
 	}
@@ -227,7 +227,7 @@ func EncodeToWriter(argb []uint32, width, height int, config *EncoderConfig,
 	}
 	enc.applyTransforms()
 
-	bs, err := enc.encodeStream()
+	bs, err := enc.encodeStream(argbHasAlpha(argb))
 	if err != nil {
 		return err
 	}
@@ -483,8 +483,20 @@ func paletteCodeBits(paletteSize int) int {
 	return 0 // 8 bits per pixel (no packing)
 }
 
-// encodeStream encodes the transformed image to a VP8L bitstream.
-func (enc *Encoder) encodeStream() ([]byte, error) {
+// argbHasAlpha reports whether any pixel of the source picture is not opaque.
+func argbHasAlpha(argb []uint32) bool {
+	for _, p := range argb {
+		if p>>24 != 0xff {
+			return true
+		}
+	}
+	return false
+}
+
+// encodeStream encodes the transformed image to a VP8L bitstream. hasAlpha is
+// the alpha_is_used hint of the header: whether the source picture (before any
+// transform) has a pixel that is not opaque.
+func (enc *Encoder) encodeStream(hasAlpha bool) ([]byte, error) {
 	width := enc.width
 	height := enc.height
 	quality := enc.config.Quality
@@ -502,7 +514,11 @@ func (enc *Encoder) encodeStream() ([]byte, error) {
 	// Height - 1 (14 bits).
 	bw.WriteBits(uint32(height-1), VP8LImageSizeBits)
 	// Alpha is used (1 bit).
-	bw.WriteBits(1, 1)
+	if hasAlpha {
+		bw.WriteBits(1, 1)
+	} else {
+		bw.WriteBits(0, 1)
+	}
 	// Version (3 bits).
 	bw.WriteBits(VP8LVersion, VP8LVersionBits)
 
